@@ -82,6 +82,7 @@ type connState struct {
 
 // World is the execution state of one scenario.
 type World struct {
+	shared *sut.SharedPool // caller arrays shared by the pooled objects (Scenario.SharePool)
 	sc    *Scenario
 	mon   Monitors
 	st    *Stats
@@ -256,6 +257,12 @@ func (w *World) acquire(cs *connState) sut.Driver {
 	d, ok := w.pool[c.Obj]
 	if !ok {
 		d = sut.New(c.Cfg)
+		if w.sc.SharePool {
+			if w.shared == nil {
+				w.shared = &sut.SharedPool{}
+			}
+			sut.UsePool(d, w.shared)
+		}
 		w.pool[c.Obj] = d
 		return d
 	}
@@ -267,9 +274,15 @@ func (w *World) acquire(cs *connState) sut.Driver {
 				w.fail(cs, "C04", "panic", fmt.Sprintf("%s: Reset()/Init() of a used object panicked: %v | %s", c.Cfg.Kind, r, topFrames(string(debug.Stack()))))
 			}
 		}()
+		if pk, ok := d.(interface{ Poke(int) }); ok && c.Poke != 0 {
+			pk.Poke(c.Poke)
+		}
 		if c.ResetBy == sut.ByInit {
 			d.Reinit(c.Cfg)
 		} else {
+			if ad, ok := d.(interface{ Adopt(sut.Cfg) }); ok {
+				ad.Adopt(c.Cfg)
+			}
 			d.Reset(sut.ByReset)
 		}
 	}()
@@ -335,7 +348,7 @@ func (w *World) pump(cs *connState) {
 			copy(nb, buf)
 			buf = nb
 		}
-		eofCall := cs.eof
+		eofCall := cs.eof || (cs.c.EarlyEOF > 0 && cs.calls+1 == cs.c.EarlyEOF)
 		prevCont := cs.cont
 		ret, err, pan := guarded(cs.drv, buf, cs.cont, eofCall)
 		cs.calls++
